@@ -6,13 +6,14 @@ def instances(tier):
     for cp in cps:
         for j in (0, 1):
             out.append((T, 'VH_C18_prove', [2, j, cp], {'weight': 500}))
+    out.append((T, 'VH_C18_prove_uint12', [1, 0], {'weight': 20}))
     return out
 
 
 CHECK = dict(
     id='C18', pkgs=['tlb'], init_pkgs=['std:io', 'boc', 'tlb'], instances=instances, opts={'budget_s': 2400, 'hash_injective': True},
-    level_text='A dictionary with 8-bit keys and 1..2 symbolic distinct keys and values is built with the real Put/Marshal; ProveKeyInHashmap for a present key returns the value and a BOC that parses to one Merkle-proof root whose data is 03 | hash | depth of the original root; an independent level-0 hasher written in the harness (pruned branches contribute their stored hash/depth) gives exactly the original root hash and depth for the pruned tree; the value decodes from the proof; an absent key yields an error.',
+    level_text='A dictionary with 8-bit keys and 1..2 symbolic distinct keys and values is built with the real Put/Marshal; ProveKeyInHashmap for a present key returns the value and a BOC that parses to one Merkle-proof root whose data is 03 | hash | depth of the original root; an independent level-0 hasher written in the harness (pruned branches contribute their stored hash/depth) gives exactly the original root hash and depth for the pruned tree; the value decodes from the proof; an absent key yields an error.  12-bit keys (width not a multiple of 8), one entry: the present key is proved with its value and every absent key, including one differing only in the last 4 bits, is refused.',
     level_note='SHA-256 ideal (injective). The tree shape of the two-key instances is fixed per instance by the number of common leading key bits (all 8 shapes in the thorough tier, 2 in quick). Generic prune sets through the cursor API, wider keys and more than two entries are outside the bound.',
     bounds={'quick': {'entries': '1..2', 'key bits': 8, 'common-prefix lengths': [0, 7]}, 'thorough': {'entries': '1..2', 'common-prefix lengths': '0..7'}},
-    outside_claim=['dictionaries with more than 2 entries or keys wider than 8 bits', 'arbitrary prune sets through Cursor', 'Merkle proofs/updates as input to pruning', 'real SHA-256'],
+    outside_claim=['dictionaries with more than 2 entries; keys other than 8 bits (2 entries) and 12 bits (1 entry; the 2-entry 12-bit instances did not finish in 15 min)', 'arbitrary prune sets through Cursor', 'Merkle proofs/updates as input to pruning', 'real SHA-256'],
 )
